@@ -25,6 +25,7 @@ from harness import lib_c02c14 as L
 from harness import lib_c02hist as HI
 from harness import lib_c02types as TY
 from harness import lib_c02adv as ADV
+from harness import lib_isolate as ISO
 
 # ------------------------------------------------------------------ (a) ScopeSpace op sequences
 
@@ -433,6 +434,9 @@ def classify(bad):
     import re
 
     kinds = [k for k, _ in bad]
+    for k in ("checker-aborted", "runtime-aborted"):
+        if k in kinds:
+            return k  # a native judge kills the process on the model build returned
     if "missing-function" in kinds:
         return "function-used-but-not-defined"
     walker = [d for k, d in bad if k == "walker"]
@@ -586,6 +590,48 @@ def corr_policy(ck, drv):
                 ck.broken("correspondence", "C02 max_opset_policy vs Func.policy (two spellings of the default domain)",
                           f"req={c} model={o} real={real}")
     ck.cov["opset_policy"] = {"cases": len(cases), "mismatches": mism}
+
+
+def corr_inline_req(ck, drv):
+    """tie H for InternalReq.inlineReq: the real `opset_req` of the `_Inline` node for inlined models with tensor /
+    sequence / optional inputs that are (or are not) handed straight to an output, at opsets 15-17, the default
+    domain spelled either way."""
+    import numpy as np
+    import onnx
+    import spox
+    from onnx import helper as h
+    from spox import Optional, Sequence, Tensor, argument
+
+    f2 = Tensor(np.float32, (2,))
+    kinds = {"tensor": f2, "seq": Sequence(f2), "optional": Optional(f2), "optional-of-seq": Optional(Sequence(f2))}
+    reqs, reals, notes = [], [], []
+    for kind, ty in kinds.items():
+        tp = TY._type_proto(ty)
+        for passthrough in (True, False):
+            for imports in ([("", 15)], [("", 16)], [("", 17)], [("", 15), ("ai.onnx", 15)], [("ai.onnx", 13), ("", 16)],
+                            [("ai.onnx.ml", 2), ("", 15)]):
+                vi = h.make_value_info("s", tp)
+                if passthrough:
+                    g = h.make_graph([], "pass", [vi], [h.make_value_info("s", tp)])
+                else:
+                    g = h.make_graph([h.make_node("Identity", ["s"], ["t"], name="idn")], "idg", [vi],
+                                     [h.make_value_info("t", tp)])
+                m = h.make_model(g, opset_imports=[h.make_operatorsetid(d, v) for d, v in imports], ir_version=8)
+                (r,) = spox.inline(m)(argument(ty)).values()
+                reals.append(sorted(set((d, v) for d, v in r._op.opset_req)))
+                k = "optional" if kind.startswith("optional") else kind
+                reqs.append({"k": "inline_req", "imports": [[d, v] for d, v in imports], "pass": [k] if passthrough else []})
+                notes.append((kind, passthrough, imports))
+    outs = drv.ask_many("C02", reqs)
+    mism = 0
+    for note, real, o in zip(notes, reals, outs):
+        ck.count(None)
+        model = sorted(set((d, v) for d, v in o.get("req", [["<error>", 0]])))
+        if model != real:
+            mism += 1
+            if mism <= 3:
+                ck.broken("correspondence", "C02 _Inline.opset_req (InternalReq.inlineReq)", f"case={note} model={model} real={real}")
+    ck.cov["inline_opset_req"] = {"cases": len(reqs), "mismatches": mism}
 
 
 def corr_intro_req(ck, drv):
@@ -897,19 +943,20 @@ def run(ck: core.Check):
             with warnings.catch_warnings():
                 warnings.simplefilter("ignore")
                 corr_intro_req(ck, drv)
+                corr_inline_req(ck, drv)
         except Exception as e:  # noqa: BLE001
             ck.broken("correspondence", "C02 internal operator opset_req not observable", f"{type(e).__name__}: {e}")
 
     # generated programs (oracle on all; naming correspondence on the 'naming' slice)
-    n_oracle = pick(1300, 12000)
+    n_oracle = pick(800, 12000)
     n_naming = pick(350, 5000)
-    n_hist = pick(200, 1500)
+    n_hist = pick(120, 1500)
     tmode = "typed-thorough" if ck.thorough else "typed"
     n_typed = len(typed_grid(ck.seed, ck.thorough)) + pick(60, 2000)
     tasks = ([(ck.seed, i, "oracle") for i in range(n_oracle)] + [(ck.seed, 10**6 + i, "naming") for i in range(n_naming)]
              + [(ck.seed, 2 * 10**6 + i, "hist") for i in range(n_hist)]
              + [(ck.seed, 3 * 10**6 + i, tmode) for i in range(n_typed)])
-    results = L.robust_map(case_worker, tasks, min(14, mp.cpu_count()), core.WORK)
+    results = L.robust_map(case_worker, tasks, min(14, mp.cpu_count()), core.WORK, stall_timeout=900)
     # a case on which the worker process died (C++ abort inside a third-party judge): judged again without
     # loading it into onnxruntime; recorded in the evidence
     died = [i for i, r in enumerate(results) if r.get("died")]
@@ -919,8 +966,15 @@ def run(ck: core.Check):
         for i, r in zip(died, again):
             results[i] = r
     ck.cov["process_aborted_in_onnxruntime_rejudged_without_it"] = len(died)
+    # (the native judges run in children of the worker: a worker that still dies was killed inside `spox.build`
+    #  itself or stalled - neither a returned valid model nor an exception)
+    for i in died:
+        # (exit code -9 = killed by the pool for not answering within 15 min on an overloaded machine: no verdict)
+        if results[i].get("died") and "exit code -9" not in str(results[i].get("crash")):
+            ck.failure("process-aborted", f"the process handling generated case {list(tasks[i])} died or stalled "
+                                          "(native crash inside build?)", {"task": list(tasks[i])})
     # hand-written adversarial seeds always run (in-process)
-    for hs in HAND_SPECS:
+    def hand(hs):
         st, m = L.build_spec(hs)
         r = {"spec": hs, "status": st, "stats": L.spec_stats(hs)}
         if st == "ok":
@@ -930,7 +984,15 @@ def run(ck: core.Check):
             r["walker"] = L.walk_named(L.proto_to_named(m.graph))
         else:
             r["err"] = m
-        results.append(r)
+        return r
+
+    for hs in HAND_SPECS:  # (in a child process too: `build` itself calls native code)
+        try:
+            results.append(ISO.call(hand, hs, timeout=300))
+        except ISO.Aborted as e:
+            ck.failure("process-aborted", f"building / judging a hand-written program kills the process: {e}", {"spec": hs})
+        except Exception as e:  # noqa: BLE001
+            results.append({"crash": f"hand spec: {e}", "status": "crash", "spec": None})
 
     crashes = [r for r in results if r.get("crash")]
     if crashes:
@@ -977,12 +1039,16 @@ def run(ck: core.Check):
             st, m = L.build_spec(s)
             return st == "ok" and classify(L.judge_model(m, custom_keys=custom_keys(s), want_ort=not r.get("ort_skipped"))) == key
 
-        try:  # shrink the witness (only on the failure path; a crash of a third-party judge ends the shrink)
+        def shrunk(spec=spec, key=key, same_failure=same_failure):
             small = L.shrink(spec, same_failure, budget=120)
             st, m = L.build_spec(small)
             bad2 = L.judge_model(m, custom_keys=custom_keys(small), want_ort=not r.get("ort_skipped")) if st == "ok" else []
-            if bad2 and classify(bad2) == key:
-                spec, bad = small, bad2
+            return (small, bad2) if bad2 and classify(bad2) == key else None
+
+        try:  # shrink the witness (failure path only; in a child process: a native crash ends the shrink, not the check)
+            got = ISO.call(shrunk, timeout=240)
+            if got:
+                spec, bad = got
         except Exception:  # noqa: BLE001
             pass
         ck.failure(key, f"build returned a model that fails: {bad[:3]}", {"spec": spec})
@@ -1081,7 +1147,29 @@ def run(ck: core.Check):
 
 
 def replay(ck: core.Check, doc) -> bool:
+    """True = still fails. Runs in a child process: a native crash on the replayed input is a failure, not exit 2."""
+    try:
+        return bool(ISO.call(_replay, ck, doc, timeout=600))
+    except ISO.Aborted as e:
+        print(f"process-aborted: replaying this input kills the process ({e})")
+        return True
+
+
+def _replay(ck: core.Check, doc) -> bool:
+    import sys
+
+    try:
+        return _replay_inner(ck, doc)
+    finally:
+        sys.stdout.flush()
+
+
+def _replay_inner(ck: core.Check, doc) -> bool:
     case = doc.get("case") or {}
+    if case.get("task") is not None:
+        r = case_worker(tuple(case["task"]))
+        print("case re-generated from its task:", {k: r.get(k) for k in ("status", "err", "bad", "crash")})
+        return bool(r.get("bad") or r.get("crash"))
     if case.get("hist") is not None:
         failing = False
         for rec in HI.judge_history(case["hist"]):
